@@ -146,6 +146,16 @@ def main():
     ok &= expect("tle epoch: lost carry (one day early) rejected", {"written", "read-back"} <= set(v.get(3, ())))
     ok &= expect("tle epoch: nearest fraction accepted " + str(v.get(4)), 4 not in v)
     ok &= expect("tle epoch: fraction 2 ms away rejected", "written" in v.get(5, ()))
+    # ---- RangeLoop.tla with Apalache: the inductive argument is not vacuous -----------------------------------------------------
+    from lib import apalache
+    from checks.c03 import RL_VARS
+    src = open(os.path.join(ROOT, "spec", "RangeLoop.tla")).read()
+    mut = src.replace("MODULE RangeLoop", "MODULE RangeLoopMut").replace(" + (IF Inc /\\ (b - a) % Abs(S) = 0 THEN 1 ELSE 0)", "")
+    assert mut.count("THEN 1 ELSE 0") == 0
+    w = apalache.instance_module("MCRangeLoopSelf", "RangeLoop", RL_VARS, {"S": 3, "Inc": "TRUE", "Bound": 0})
+    wm = apalache.instance_module("MCRangeLoopMutSelf", "RangeLoopMut", RL_VARS, {"S": 3, "Inc": "TRUE", "Bound": 0})
+    ok &= expect("apalache: IndInv => Safe holds for the length formula of the code", apalache.check("MCRangeLoopSelf", w, "IndInit", "Safe", 0, extra_modules=["RangeLoop"])[0])
+    ok &= expect("apalache: the formula without its inclusive '+1' is refuted", not apalache.check("MCRangeLoopMutSelf", wm, "IndInit", "Safe", 0, extra_texts={"RangeLoopMut": mut})[0])
     return 0 if ok else 1
 
 
